@@ -1,3 +1,5 @@
+#[cfg(adlt_verif)]
+use adlt_verif_seam::std;
 use crate::{
     dlt::{
         DltArg, DltChar4, DltMessage, DltMessageIndexType, DLT_TYPE_INFO_RAWD, DLT_TYPE_INFO_STRG,
